@@ -206,6 +206,9 @@ class GenericCallAdapter(Adapter):
                 )
 
         old_node_kwargs = {kw.arg: kw.value for kw in old_node.keywords}
+        # the insert positions are positions in the old call,
+        # which contains also the keyword arguments which are deleted
+        old_kwarg_pos = {kw.arg: pos for pos, kw in enumerate(old_node.keywords)}
 
         to_insert = []
         insert_pos = 0
@@ -218,6 +221,7 @@ class GenericCallAdapter(Adapter):
                 result_kwargs[key] = new_value_element.value
             else:
                 node = old_node_kwargs[key]
+                next_insert_pos = old_kwarg_pos[key] + 1
 
                 # check values with same keys
                 old_value_element = self.argument(old_value, key)
@@ -239,7 +243,7 @@ class GenericCallAdapter(Adapter):
                         )
                     to_insert = []
 
-                insert_pos += 1
+                insert_pos = next_insert_pos
 
         if to_insert:
 
